@@ -106,7 +106,7 @@ func runSinkCase(c *fiCase) (o fiObs) {
 	if err != nil {
 		return
 	}
-	sink := &faultSink{sticky: c.Mode == "sticky", partial: c.Mode == "partial"}
+	sink := &faultSink{sticky: c.Mode == "sticky" || c.Mode == "persist", partial: c.Mode == "partial"}
 	if c.Side == "sink" {
 		sink.failAt = c.K
 	} else {
@@ -130,6 +130,9 @@ func runSinkCase(c *fiCase) (o fiObs) {
 	if chunk <= 0 {
 		chunk = len(data)
 	}
+	if c.Mode == "persist" {
+		chunk = min(chunk, int(cf.BlockSize)/2+1)
+	}
 	for off := 0; off < len(data); {
 		n := min(chunk, len(data)-off)
 		var wn int
@@ -143,8 +146,13 @@ func runSinkCase(c *fiCase) (o fiObs) {
 		off += n
 		if werr != nil {
 			errSeen = true
-			firstErr = werr
-			break // a client stops writing at the first error and closes
+			if firstErr == nil {
+				firstErr = werr
+			}
+			if c.Mode != "persist" {
+				break // a client stops writing at the first error and closes
+			}
+			// "persist": a careless client ignores the error and keeps writing the rest of its data
 		}
 	}
 	closeOK := false
@@ -276,7 +284,7 @@ func runSourceCase(c *fiCase) (o fiObs) {
 
 func c08(run *core.Run, replay string) {
 	run.SetRule("fault enumeration: for every recipe x job count the fault-free run counts the calls N of the sink's Write (and Close) / the source's Read; then the fault is injected at EVERY k in 1..N in modes " +
-		"transient, transient + caller retries Close, sticky, (sink) partial write, (source) error returned together with bytes; the client stops writing at the first error and closes; " +
+		"transient, transient + caller retries Close, sticky, sticky + client keeps writing after the error (small Write calls), (sink) partial write, (source) error returned together with bytes; the client stops writing at the first error and closes; " +
 		"oracle: an injected fault must surface as a non-nil error of some call, no panic may escape, a Close that returns nil implies the sink decodes to exactly the accepted bytes, " +
 		"bytes returned by Read are always a prefix of the original and a clean io.EOF implies completeness; non-trivial = the fault was actually injected; distinct = (recipe, side, k, mode, jobs)")
 	check := func(c *fiCase) fiObs {
@@ -350,7 +358,7 @@ func c08(run *core.Run, replay string) {
 			}
 			nw := o.calls
 			for k := 1; k <= nw; k++ {
-				modes := []string{"transient", "retry", "sticky"}
+				modes := []string{"transient", "retry", "sticky", "persist"}
 				if run.Thorough() || ri < 2 {
 					modes = append(modes, "partial")
 				}
